@@ -11,12 +11,14 @@
 mod alloc;
 mod c09;
 mod c14;
+mod c19;
 mod exec;
 mod gen;
 mod inspect;
 mod lin;
 mod oracle;
 mod orch;
+mod par;
 mod program;
 mod props;
 mod rng;
